@@ -57,9 +57,12 @@ pub fn run_burst(focus: &'static str, seed: u64, index: u64) -> CaseOut {
     let burst = *rng.pick(&[10usize, 30, 100, 300]);
     let cmd_buf = *rng.pick(&[1usize, 1, 2, 3, 8, 32_768]);
     let slow = *rng.pick(&[(0u64, 0u64), (0, 40), (300, 80), (0, 200)]);
-    let sutcfg = SutCfg { counters: 100, capacity: 64, max_weight: 100_000_000, shards: 2, cmd_buf, pool: 1, buf: 4, tick: Duration::from_millis(1),
+    // every fourth case: a cache so small that the puts of the burst evict each other, with reader threads feeding the access-count consumer
+    // (the worker's admission path then races the consumer for the sketch while the queue is full)
+    let crowded = index % 4 == 2;
+    let sutcfg = SutCfg { counters: 100, capacity: 64, max_weight: if crowded { 120 } else { 100_000_000 }, shards: 2, cmd_buf, pool: 1, buf: if crowded { 1 } else { 4 }, tick: Duration::from_millis(1),
         weight_mode: WeightMode::Default, hash_mode: HashMode::Default, start_ns: rt::START_NS };
-    let case = J::obj().with("engine", J::s("conc")).with("scenario", J::s("burst")).with("focus", J::s(focus)).with("seed", J::Int(seed as i128))
+    let case = J::obj().with("engine", J::s("conc")).with("scenario", J::s("burst")).with("evictions_and_readers", J::Bool(crowded)).with("focus", J::s(focus)).with("seed", J::Int(seed as i128))
         .with("index", J::Int(index as i128)).with("threads", J::u(threads)).with("burst", J::u(burst)).with("command_buffer_size", J::u(cmd_buf))
         .with("worker_delay_permille_spin_sleep", J::s(format!("{:?}", slow))).with("time_to_live_keys_expire_during_the_burst", J::Bool(index % 2 == 1));
     let mut counts = Counts::default();
@@ -87,6 +90,15 @@ pub fn run_burst(focus: &'static str, seed: u64, index: u64) -> CaseOut {
         let (clock, stop) = (sut.clock.clone(), stop_clock.clone());
         Some(thread::spawn(move || { rt::register_helper_thread(); while !stop.load(Ordering::Relaxed) { clock.advance(NS / 2); thread::sleep(Duration::from_micros(250)); } }))
     } else { None };
+    let readers_stop = Arc::new(AtomicBool::new(false));
+    let readers: Vec<thread::JoinHandle<u64>> = if crowded {
+        (0..2).map(|r| { let (cache, stop) = (sut.cache.clone(), readers_stop.clone()); thread::spawn(move || {
+            rt::register_helper_thread();
+            let mut n = 0u64;
+            while !stop.load(Ordering::Relaxed) && !rt::aborted() { let _ = cache.get(&(1 + (n + r) % 6)); n += 1; if n % 64 == 0 { thread::yield_now(); } }
+            n
+        }) }).collect()
+    } else { Vec::new() };
     let full_sends = Arc::new(AtomicU64::new(0));
     let mut crew: rt::Crew<(Vec<Sub>, u64)> = rt::Crew::new();
     for t in 0..threads {
@@ -147,7 +159,9 @@ pub fn run_burst(focus: &'static str, seed: u64, index: u64) -> CaseOut {
         Err(other) => findings.push(Finding { props: vec!["C11"], signature: "inconclusive/burst-writers".into(), detail: waited_name(&other), witness: J::Null, inconclusive: true }),
     }
     stop_clock.store(true, Ordering::SeqCst);
+    readers_stop.store(true, Ordering::SeqCst);
     if let Some(a) = advancer { let _ = a.join(); }
+    if crowded { if let Some(reads) = rt::join_helpers("the readers of a crowded burst to finish", readers) { counts.add("reads_racing_a_crowded_burst", reads.into_iter().sum()); counts.inc("bursts_with_evictions_and_readers"); } }
     sched().quiet();
     sched().quiet_mask.store(0, Ordering::SeqCst);
     let quiesced = sut.quiesce();
@@ -267,7 +281,7 @@ pub fn run_burst(focus: &'static str, seed: u64, index: u64) -> CaseOut {
             _ => {}
         }
     }
-    if quiesced_ok(&findings) && !expiring {
+    if quiesced_ok(&findings) && !expiring && !crowded {
         let snapshot = sut.snapshot();
         let held: BTreeSet<u64> = snapshot.stored.iter().map(|e| e.0).collect();
         let expected: BTreeSet<u64> = present.keys().copied().collect();
@@ -728,7 +742,7 @@ pub fn run_stress(focus: &'static str, seed: u64, index: u64, args: &Args) -> Ca
     let all_done = rt::wait_until("stress clients to finish", || finished.load(Ordering::SeqCst) >= threads as u64);
     if let Err(waited) = &all_done {
         if let Waited::Deadlock(d) = waited {
-            fail(&mut findings, &["C18"], "C18/deadlock/stress".into(), format!("no thread is runnable and nothing progresses with {} of {} clients unfinished: {}", threads as u64 - finished.load(Ordering::SeqCst), threads, d), case.clone());
+            fail(&mut findings, &["C18", "C17"], "C18/deadlock/stress".into(), format!("no thread is runnable and nothing progresses with {} of {} clients unfinished: {}", threads as u64 - finished.load(Ordering::SeqCst), threads, d), case.clone());
         } else { findings.push(Finding { props: vec!["C18"], signature: "inconclusive/stress".into(), detail: waited_name(waited), witness: J::Null, inconclusive: true }); }
     }
     stop.store(true, Ordering::SeqCst);
